@@ -41,7 +41,7 @@ class Registration(Stream):
                 cfg["op"] = op.hex()
                 cfg["opc"] = bytes(a ^ b for a, b in zip(crypto5g.aes(k, op), op)).hex()
                 cfg["opc_text"] = ""
-            fid = [None, 0, (1 << 40) - 2, 255][i % 4]          # first AMF-UE-NGAP-ID the network assigns
+            fid = [256, 0, (1 << 40) - 2, 1 << 32, 65536, 1 << 24, 255, None][i % 8]          # first AMF-UE-NGAP-ID the network assigns: ends of the range, exact powers of 256
             if fid is not None:
                 cfg["first_amf_id"] = fid
             if i % 4 >= 2:
